@@ -6,10 +6,10 @@
      transaction.rs execute_commit / execute_small_commit / sync_dirty_storages
      wal.rs        write_frames_batch, sync_to_disk, truncate, rotate_segment, remove_closed_segments
      wal_storage.rs flush_wal_for_table;  dirty_tracker.rs
-     lifecycle.rs  Database::checkpoint
+     lifecycle.rs  Database::checkpoint (flush dirty tables, sync_all, truncate, wal sync)
      recovery.rs   recover_all_tables (redo of every valid frame whose table file exists)
      persistence.rs CatalogPersistence::save (temporary file: create, header, body, sync_all; rename over the catalog)
-     file_manager.rs create_table / create_index (create 1 page, header, msync, then grow + root)
+     file_manager.rs create_table / create_index (create 1 page, header, msync), ddl.rs (grow, root page, msync)
    A statement is abstracted to the page images it stores in place (observed), the pages it
    reports to the dirty tracker, and the grow calls in between.  Page images are names (Z, 0 =
    all-zero page = absent).  DEFINITIONS ONLY. *)
@@ -146,7 +146,7 @@ Inductive op :=
 | OBegin
 | OCommit (ord : list Z)          (* ord: order in which the dirty tables were msynced (hash-map order, observed) *)
 | OCkpt (ord : list Z)            (* PRAGMA wal_checkpoint; ord: order in which the table files were visited (directory order) *)
-| OApiCkpt                        (* Database::checkpoint() *)
+| OApiCkpt (ord : list Z)         (* Database::checkpoint(); ord: the data files FileManager::sync_all msynced (its open files), in order *)
 | OReopen (ord1 ord2 : list Z).   (* drop the handle (clean shutdown), Database::open, PRAGMA wal=ON;
                                      ord1: directory order of the checkpoint, ord2: order of FileManager::sync_all *)
 
@@ -180,8 +180,9 @@ Definition cat_save : list ev := [ECatTrunc; ECatHdr; ECatBody; ECatSync; ECatRe
 Definition events (s : st) (o : op) : list ev :=
   match o with
   | OCreate t h r hi ri =>
-      [ECreate t; EStore t 0 h; EMsync t; EGrow t; EStore t 1 r;
+      [ECreate t; EStore t 0 h; EMsync t; EGrow t; EStore t 1 r; EMsync t;
        ECreate (idx_file t); EStore (idx_file t) 0 hi; EMsync (idx_file t); EGrow (idx_file t); EStore (idx_file t) 1 ri;
+       EMsync (idx_file t);
        EAddTab t] ++ cat_save ++ [EMetaW; EMetaSync; EAck]
   | ODml t marks body post =>
       map EMark marks ++ map body_ev body
@@ -192,10 +193,13 @@ Definition events (s : st) (o : op) : list ev :=
       flush_evs (dirty s) ++ (match dirty s with [] => [] | _ => map EMsync (arrange ord (key_tables (dirty s))) end)
       ++ [ETxn false; EAck]
   | OCkpt ord => ckpt_evs s ord ++ [EAck]
-  | OApiCkpt =>
+  | OApiCkpt ord =>
       if ever_dirty s
       then flat_map (fun t => flush_evs (filter (fun k => fst k =? t) (dirty s))) (key_tables (dirty s))
-           ++ (match cur_fl s ++ buf s ++ map (fun k => (k, None)) (dirty s) with [] => [] | _ => [ETrunc] end)
+           ++ (match cur_fl s ++ buf s ++ map (fun k => (k, None)) (dirty s) with
+               | [] => []
+               | _ => map EMsync ord ++ [ETrunc; EFlush; ESync]      (* sync_all, truncate, wal.sync() *)
+               end)
            ++ [EAck]
       else [EAck]
   | OReopen ord1 ord2 =>
@@ -327,7 +331,7 @@ Definition wf_op (s : st) (o : op) : bool :=
       && (in_txn s || match dirty s with [] => true | _ => false end)
   | OBegin => negb (in_txn s)
   | OCommit _ => in_txn s
-  | OCkpt _ | OApiCkpt | OReopen _ _ => negb (in_txn s) && match dirty s with [] => true | _ => false end
+  | OCkpt _ | OApiCkpt _ | OReopen _ _ => negb (in_txn s) && match dirty s with [] => true | _ => false end
   end.
 
 Fixpoint wf_run (s : st) (os : list op) : bool :=
@@ -336,7 +340,7 @@ Fixpoint wf_run (s : st) (os : list op) : bool :=
   | o :: r => wf_op s o && wf_run (step s o) r
   end.
 
-Definition is_api_ckpt (o : op) : bool := match o with OApiCkpt => true | _ => false end.
+Definition is_api_ckpt (o : op) : bool := match o with OApiCkpt _ => true | _ => false end.
 
 (* ------------------------------------------------------------------ bookkeeping used to STATE the power-loss
    theorems (not part of the protocol): the pages as of the last completed WAL sync / msync, and
